@@ -137,6 +137,7 @@ is_printable = Fn(
     name='utils__is_printable',
     header=r'constexpr\s+bool\s+is_printable\s*\(\s*char c\s*\)',
     csig='bool utils__is_printable(char c)',
+    rules=[S(r'(?<![\w:])(char_to_idx|is_printable|is_hex_digit|is_dec_digit)\(', r'utils__\1(', min=0, name='R4:sibling helper (namespace utils)')],
     contract=r'''
 __CPROVER_assigns()
 __CPROVER_ensures(__CPROVER_return_value == ((unsigned char)c >= 0x20 && (unsigned char)c <= 0x7e))
@@ -149,6 +150,7 @@ is_hex_digit = Fn(
     name='utils__is_hex_digit',
     header=r'constexpr\s+bool\s+is_hex_digit\s*\(\s*char c\s*\)',
     csig='bool utils__is_hex_digit(char c)',
+    rules=[S(r'(?<![\w:])(char_to_idx|is_printable|is_hex_digit|is_dec_digit)\(', r'utils__\1(', min=0, name='R4:sibling helper (namespace utils)')],
     contract=r'''
 __CPROVER_assigns()
 __CPROVER_ensures(__CPROVER_return_value == ((c >= 48 && c <= 57) || (c >= 97 && c <= 102) || (c >= 65 && c <= 70)))
@@ -161,6 +163,7 @@ is_dec_digit = Fn(
     name='utils__is_dec_digit',
     header=r'constexpr\s+bool\s+is_dec_digit\s*\(\s*char c\s*\)',
     csig='bool utils__is_dec_digit(char c)',
+    rules=[S(r'(?<![\w:])(char_to_idx|is_printable|is_hex_digit|is_dec_digit)\(', r'utils__\1(', min=0, name='R4:sibling helper (namespace utils)')],
     contract=r'''
 __CPROVER_assigns()
 __CPROVER_ensures(__CPROVER_return_value == (c >= 48 && c <= 57))
